@@ -23,7 +23,7 @@ func init() {
 
 func runC16(r *core.Run) {
 	p := r.Prog
-	r.Rule("R16.1", "constructors succeed only for 0 <= scale <= precision <= 38", 6, false)
+	r.Rule("R16.1", "constructors succeed exactly for 0 <= scale <= precision <= 38", 7, false)
 	r.Rule("R16.2", "SetString succeeds only if the fraction fits the scale and the digits parsed", 2, false)
 	r.Rule("R16.3", "the magnitude comes from math/big operations on the parsed digits", 1, false)
 	r.Rule("R16.4", "a rejected input leaves the decimal untouched: SetString parses into a big.Int of its own", 1, false)
@@ -149,6 +149,24 @@ func runC16(r *core.Run) {
 		r.Check(found[need.k], "R16.1", "sanity rejects "+need.k, sanity.Pos(), "guard present (guards: "+strings.Join(have, ", ")+")",
 			need.what+" is not rejected (guards found: "+strings.Join(have, ", ")+"): such a decimal is constructed and String() slices its digit string out of range")
 	}
+
+	// ... and no guard cuts into the valid region ("every precision 1 to 38, every scale up to the precision")
+	over := ""
+	for _, k := range have {
+		var v string
+		var op byte
+		var c int64
+		if n, _ := fmt.Sscanf(k, "%1s%c%d", &v, &op, &c); n != 3 {
+			continue // S>P and the like
+		}
+		switch {
+		case op == '>' && c < 38:
+			over = fmt.Sprintf("the guard %s rejects %s = %d, which is valid (precision and scale go up to 38)", k, v, c+1)
+		case op == '<' && c > 0:
+			over = fmt.Sprintf("the guard %s rejects %s = %d, which is valid", k, v, c-1)
+		}
+	}
+	r.Check(over == "", "R16.1", "sanity rejects nothing inside 0 <= scale <= precision <= 38", sanity.Pos(), "guards: "+strings.Join(have, ", "), over+": a decimal(38,38) column can no longer be constructed or decoded")
 
 	// R16.2
 	ss := p.Func("asetypes", "Decimal", "SetString")
